@@ -70,7 +70,7 @@ package dsstate
 
 // ---- C01/C14: "a peer that has caught up by installing a snapshot holds exactly the result" ----
 //@ func (st *State) Unmarshal
-//@   property C01 C14
+//@   property C01 C14 C08
 //@   requires forall k ds.Key :: !in(k, written)
 //@   ensures [only-the-snapshot-remains] err == nil ==> forall k ds.Key :: haskey(dstore, k) && inNS(st, k) ==> in(k, written)
 //@   ensures [writes-stay-in-namespace] forall k ds.Key :: in(k, written) ==> inNS(st, k)
